@@ -601,6 +601,39 @@ class Interp:
         else:
             self.exec_block(s.orelse, env, qual)
 
+    def st_Match(self, s, env, qual):
+        """match statement with literal / wildcard / capture / or-patterns and guards (what if-elif chains on constants turn into)"""
+        subj = self.eval(s.subject, env)
+
+        def matches(pat):
+            if isinstance(pat, ast.MatchValue):
+                return self.cmp_eq(subj, self.eval(pat.value, env))
+            if isinstance(pat, ast.MatchSingleton):
+                return subj is pat.value
+            if isinstance(pat, ast.MatchAs):
+                if pat.pattern is not None:
+                    r = matches(pat.pattern)
+                    if self.truth(r) and pat.name:
+                        env.vars[pat.name] = subj
+                        return True
+                    return r
+                if pat.name:
+                    env.vars[pat.name] = subj
+                return True
+            if isinstance(pat, ast.MatchOr):
+                r = False
+                for sub in pat.patterns:
+                    r = self.or_(r, matches(sub))
+                return r
+            raise OutOfSubset(f'{self.source_name}:{s.lineno}: match pattern {type(pat).__name__}')
+        for case in s.cases:
+            if not self.truth(matches(case.pattern)):
+                continue
+            if case.guard is not None and not self.truth(self.eval(case.guard, env)):
+                continue
+            self.exec_block(case.body, env, qual)
+            return
+
     def st_Raise(self, s, env, qual):
         if s.exc is None:
             raise OutOfSubset('bare raise')
